@@ -78,6 +78,10 @@ pub struct Plan {
     /// of a running call (0 = none): scheduling points almost anywhere in library code.
     #[serde(default, skip_serializing_if = "is_zero")]
     pub alloc_yield_mean: u32,
+    /// Threads engine: mean number of basic blocks of library code between two block-level
+    /// preemptions of a running call (0 = none).
+    #[serde(default, skip_serializing_if = "is_zero")]
+    pub block_yield_mean: u32,
     /// Fault `clock`: nanoseconds the simulated clock advances per reading (0 = the
     /// reference's 1 µs). A large step models a stalled or heavily loaded machine.
     #[serde(default, skip_serializing_if = "is_zero64")]
